@@ -597,7 +597,9 @@ class Edit(Text):
         """
         self._shift_view_to_cursor = bool(focus)
 
-        canv: TextCanvas | CompositeCanvas = super().render(size, focus)
+        # Text.render is cached ignoring focus, but the view shift to the cursor depends on it:
+        # call the plain render so that a canvas laid out for the other focus state is never reused
+        canv: TextCanvas | CompositeCanvas = Text.render.original_fn(self, size, focus)
         if focus:
             canv = CompositeCanvas(canv)
             canv.cursor = self.get_cursor_coords(size)
